@@ -5,12 +5,13 @@
 # so several of these can run at the same time.  (The sanctioned in-place variant is tools/seedtest.sh.)
 set -u
 patch=$(readlink -f "$1"); tier=$2; shift 2
+src=${VERIF_SRC:-$(dirname "$(dirname "$(readlink -f "$0")")")}
 wt=$(mktemp -d /tmp/seedwt.XXXXXX); rmdir "$wt"
 cp=$(mktemp -d /tmp/seedrun.XXXXXX)
 git -C /repo worktree add -q --detach "$wt" HEAD || exit 2
 trap 'git -C /repo worktree remove --force "$wt" >/dev/null 2>&1; rm -rf "$wt" "$cp"' EXIT
 git -C "$wt" apply "$patch" || { echo "seedrun: patch does not apply"; exit 2; }
-rsync -a --exclude .git --exclude .cache --exclude 'replays/*.json' /verif/ "$cp/"
+rsync -a --exclude .git --exclude .cache --exclude 'replays/*.json' --exclude 'coq/**/*.glob' "$src"/ "$cp/"
 sed -i "s|/repo/|$wt/|g; s|/repo\"|$wt\"|g" "$cp"/harness/*/Cargo.toml "$cp"/harness/clidrv/prepare.sh "$cp"/harness/build.sh
 cd "$cp"
 for p in "$@"; do
